@@ -15,6 +15,7 @@ import json
 import os
 import re
 import shutil
+import subprocess
 import sys
 import tempfile
 import time
@@ -291,6 +292,44 @@ def kani_playback(unit_out, ob):
     return krun.playback(unit, unit_out["ws"], h)
 
 
+_NATIVE_SEARCH_CACHE = {}
+
+
+def native_search(uname, ucfg, scratch):
+    """Optional per-unit `native_search` (Verus units give no counterexample): after an obligation
+    of the unit has failed, run a small enumerative search against the REAL crate in a scratch
+    copy and return its FOUND lines as the failing input. It decides nothing by itself."""
+    ns = ucfg.get("native_search")
+    if not ns:
+        return None
+    key = ns["test"]
+    if key in _NATIVE_SEARCH_CACHE:
+        return _NATIVE_SEARCH_CACHE[key]
+    ws = os.path.join(scratch, "ws-native-" + re.sub(r"\W+", "_", uname))
+    res = {"test_src": None, "native_output": None, "reproduced": False}
+    try:
+        if not os.path.exists(ws):
+            kinject.copy_workspace(REPO, ws)
+        dest = os.path.join(ws, ns["dest"])
+        os.makedirs(os.path.dirname(dest), exist_ok=True)
+        shutil.copy(os.path.join(VERIF, ns["test"]), dest)
+        cmd = ["cargo", "test", "--release", "--offline", "-p", ns["crate"], "--test",
+               os.path.splitext(os.path.basename(dest))[0], "--", "--nocapture"]
+        env = dict(os.environ, CARGO_NET_OFFLINE="true")
+        pr = subprocess.run(cmd, cwd=ws, capture_output=True, text=True, timeout=ns.get("timeout", 900), env=env)
+        out = pr.stdout + pr.stderr
+        found = [l for l in out.splitlines() if l.startswith("FOUND ")]
+        res["native_output"] = "$ " + " ".join(cmd) + "\n" + "\n".join(found[:15] + [l for l in out.splitlines() if l.startswith(("searched", "test result"))])
+        if found:
+            res["test_src"] = f"// failing inputs found by {ns['test']} (placed at {ns['dest']}) on the real crate:\n" + \
+                              "\n".join("// " + l for l in found[:15])
+            res["reproduced"] = True
+    except Exception as e:   # best effort
+        res["native_output"] = f"native search failed: {e}"
+    _NATIVE_SEARCH_CACHE[key] = res
+    return res
+
+
 # --------------------------------------------------------------------------- property driver
 
 def write_replay(pid, ob, unit_out, pb=None):
@@ -362,6 +401,8 @@ def decide(pid, tier, only_obligation=None):
                     pb = kani_playback(ob["_unit"], ob)
                 except Exception as e:  # playback is best-effort
                     pb = {"test_src": None, "native_output": f"playback failed: {e}", "reproduced": False}
+            elif ob["backend"] == "verus":
+                pb = native_search(ob["_unit"]["unit"], CONFIG["units"][ob["_unit"]["unit"]], scratch)
             path = write_replay(pid, ob, ob["_unit"], pb)
             violations.append((ob, path, pb))
         ev = build_evidence(pid, pcfg, tier, unit_outs, obligations, violations, known_hits, time.time() - t0)
